@@ -7738,7 +7738,10 @@ def _looks_like_number(s):
         int(s)
         return True
     except ValueError:
-        return s.startswith(("0x", "0X")) and _is_base_n(s, 16)
+        if s.startswith(("0x", "0X")) and _is_base_n(s, 16):
+            return True
+        # A float literal (names cannot contain a dot)
+        return "." in s and is_float(s)
 
 
 def is_float(s: str) -> bool:
